@@ -389,11 +389,20 @@ fn ev_app_use(b: &[u8]) -> R {
                 serde_json::to_string(&reply).map(|s| s.len()).unwrap_or(0),
                 serde_json::to_string(&thread).map(|s| s.len()).unwrap_or(0)
             ));
+            if let Some(rel) = &e.content.relates_to {
+                out.push_str(&format!(" rel={:?} data={}", rel.rel_type(), rel.data().len()));
+            }
             if let Some(Relation::Replacement(r)) = &e.content.relates_to {
                 let mut target = RoomMessageEventContent::text_plain("original");
                 target.apply_replacement(r.new_content.clone());
                 out.push_str(&format!(" edited={}", target.body().len()));
             }
+        }
+        AnyTimelineEvent::MessageLike(AnyMessageLikeEvent::RoomEncrypted(MessageLikeEvent::Original(e))) => {
+            if let Some(rel) = &e.content.relates_to {
+                out.push_str(&format!(" rel={:?} data={}", rel.rel_type(), rel.data().len()));
+            }
+            out.push_str(&format!(" relations={:?}", e.unsigned.relations));
         }
         AnyTimelineEvent::MessageLike(m) => {
             out.push_str(&format!(" relations={:?}", m.relations()));
